@@ -129,6 +129,14 @@ CLAIMED = {
          "HVAR, avar, clamping, CFF/CFF2 charstrings incl. flex ties) is compared glyph by glyph with HarfBuzz on corpus and generated fonts at "
          "default, extreme, random and out-of-range locations (testing).",
          "Rocq proof that inferred deltas meet the specification + exact correspondence + HarfBuzz glyph sweeps"),
+ "C06": ("The pure-Python packer (OTTableWriter: hash-consing with structural keys and Extension scoping, gathering order with "
+         "sortCoverageLast and the extension area, positions, offset emission) is transcribed into Gallina and reproduces the real packer's "
+         "output BYTE FOR BYTE on writer graphs captured from corpus and generated layout tables. Theorems: an emitted offset field reads back "
+         "as exactly the distance to the sub-table and fits its width (no wrapped offsets: out-of-range distances raise), every table's bytes "
+         "start at the running sum of the preceding lengths, and that is the position offsets were computed from. Overflow repair (subtable "
+         "splitting, Extension promotion), the HarfBuzz repacker and GPOS compaction 0..9 are checked on the implementation pair by pair / "
+         "sequence by sequence against the rule text through HarfBuzz on tables that overflow 16-bit offsets (testing). Known finding F3.",
+         "Rocq proof of offset exactness and placement over a byte-exact packer model + overflow/compaction shaping sweeps"),
 }
 
 def main():
